@@ -8,7 +8,7 @@ PROP = {
             "comparison helpers) or, for the harmonics, m != 0; distinct = hash of the arguments. Dawson/Erfi: |x| <= 30 incl. both sides of |x| = 0.2 and the grid points of the sampling sum; "
             "Inv_Erf: p up to +-(1-1e-12); Round: x over 600 decades, d = 1..7, neighbours of powers of ten, exact half-way decimals, integers, d-digit decimals +- tiny; "
             "Sign/StepFunction/Relative_Difference/Floats_Equal on zeros, signed zeros, denormals, nearly equal pairs; all (l,m) with l <= 12 crossed with poles, equator, axes, near-pole and random directions",
-    "floors": {"quick": {"cases": 200000, "distinct_nontrivial": 8000,
+    "floors": {"quick": {"cases": 620000, "distinct_nontrivial": 120000,
                          "clauses": {"dawson-accurate-to-2e-7-absolutely": 20000, "erfi-accurate-to-1e-6-relatively": 15000, "inv-erf-within-1e-4-of-erfinv": 18000,
                                      "round-within-half-a-unit-of-the-dth-digit": 100000, "round-is-odd": 100000, "floats-equal-symmetric": 35000,
                                      "vector-harmonic-Psi-is-tangential": 6000, "vector-harmonic-Psi-is-r-times-gradient-of-Ylm": 5000,
